@@ -1013,7 +1013,7 @@ func stallCase(w *mon.W, c *mon.Case, e *route.Engine, st *state) {
 func framingCase(w *mon.W, c *mon.Case, e, refusing *route.Engine, st *state) {
 	r := c.R
 	id := c.G*1000 + uint64(r.Intn(1000))
-	mode := r.Str("stall", "stall", "broken", "refused")
+	mode := r.Str("stall", "stall", "broken", "refused", "accepted")
 	viaBody := r.Chance(3)
 	path := fmt.Sprintf("/body-%d", id)
 	if viaBody {
@@ -1058,6 +1058,11 @@ func framingCase(w *mon.W, c *mon.Case, e, refusing *route.Engine, st *state) {
 		expect = "Expect: 100-continue\r\n"
 		eng = refusing
 	}
+	if mode == "accepted" {
+		// an Expect: 100-continue upload that is accepted (the body stream is created after
+		// the interim response) and that the handler leaves partly unread
+		expect = "Expect: 100-continue\r\n"
+	}
 	// what the handler may see of the body
 	visible := body
 	switch mode {
@@ -1090,7 +1095,11 @@ func framingCase(w *mon.W, c *mon.Case, e, refusing *route.Engine, st *state) {
 	frags, policy := wire.FragSchedule(r, stream, []int{len(reqWire)})
 	buf := r.Int(4096, 4096, 100, 8192)
 	st.mu.Lock()
-	st.cur, st.got, st.gotErr, st.paths, st.done, st.hasDone = plan{stopAfter: -1, readSizes: []int{r.Int(7, 100, 4096, 32768), 1 + r.Intn(9000)}}, nil, nil, nil, nil, false
+	pl := plan{stopAfter: -1, readSizes: []int{r.Int(7, 100, 4096, 32768), 1 + r.Intn(9000)}}
+	if mode == "accepted" && !viaBody {
+		pl.stopAfter = r.Intn(len(body) + 1)
+	}
+	st.cur, st.got, st.gotErr, st.paths, st.done, st.hasDone = pl, nil, nil, nil, nil, false
 	st.mu.Unlock()
 	sc := sconn.New(frags, sconn.EOF)
 	stallOff := -1
@@ -1193,6 +1202,20 @@ func framingCase(w *mon.W, c *mon.Case, e, refusing *route.Engine, st *state) {
 			return
 		}
 		w.Count("framing_broken_closed", 1)
+	case "accepted":
+		if handlerRan && !bytes.HasPrefix(body, got) {
+			c.Violate("stream-content", "framing/accepted: bytes read (%d) are not a prefix of the body (err=%v)", len(got), gotErr)
+			return
+		}
+		switch {
+		case np == 1 && strings.HasSuffix(out, "ok:/probe-"+fmt.Sprint(id)):
+			w.Count("framing_accepted_probe_served", 1)
+		case np == 0:
+			w.Count("framing_accepted_closed", 1)
+		default:
+			c.Violate("closed-but-more", "framing/accepted: probe served %d times, %d responses written: %q", np, nresp, trunc(out, 300))
+			return
+		}
 	case "refused":
 		switch {
 		case np == 1 && strings.HasSuffix(out, "ok:/probe-"+fmt.Sprint(id)):
